@@ -5,14 +5,16 @@ Implementation: txdbus.message.parseMessage / txdbus.marshal.unmarshal run under
 parse_message with the signature header field validated) through OpsC05.
 
 case kinds
-  msg : {'kind': 'msg', 'raw': bytes}                                       parseMessage(raw, [])
+  msg : {'kind': 'msg', 'raw': bytes [, 'fds': None | [int]]}               parseMessage(raw, fds)   (fds defaults to [])
   un  : {'kind': 'un', 'sig': str, 'data': bytes, 'off': int, 'le': bool, 'fds': None | [int]}   unmarshal(...)
 
 compared (correspondence): Ok / Err class; when both succeed also the number of bytes consumed (un) or the message
 type (msg) and the size of the decoded value (nodes + string bytes).  RecursionError is classed ResourceLimit: counted,
 and required to occur only where the model nests deeper than 150 levels.
-oracle (property): lines <= LINE_A + LINE_B * len(input); size(decoded) <= SIZE_A + |sig| + SIZE_K * |data|.
-cost correspondence: lines <= COST_A + COST_C * (model calls + model scan).
+oracle (property): work = lines executed <= COST_A + COST_C * (model calls + model scan), the quantity the theorems bound
+linearly in the input length (tracing runs up to that many lines, never less than HARD_CAP, then aborts: an abort IS a violation);
+size(decoded) <= SIZE_A + |sig| + SIZE_K * |data|.  Cases above the typical-traffic budget LINE_A + LINE_B * len(input) but within the
+model's account are counted in stats, not reported.
 """
 import struct
 import sys
@@ -45,6 +47,11 @@ ASSUMPTIONS = [
     'the repaired parseMessage tests len(m.signature) > 255 in characters; the model tests "more than 255 characters or more than 1020 '
     'bytes of UTF-8", which is the same predicate for every str the decoder can build (it only builds str values that passed the UTF-8 / '
     'ASCII decoder); that invariant is a representation convention of Model/Marshal.v (PStr = UTF-8 bytes), not a proved lemma',
+    'reading of "work proportional to its length": the bound is the one the theorems prove (C05_work_linear, C05_parse_total: linear in the '
+    'message length with explicit constants, header and variant signatures having at most 255 characters), not the constant of ordinary '
+    'traffic; an input whose line count exceeds LINE_A + LINE_B*len but is accounted for by the model\'s calls + scan counters (deeply '
+    'nested signatures are re-split at every level: up to ~1e4 lines per byte) is recorded in stats '
+    '(above_typical_budget_but_within_proved_bound), an input whose line count exceeds what the counters explain is a violation',
     'Python evaluates genCompleteTypes lazily; the model charges one scan of the signature text per unmarshal() call up front (an upper bound)',
 ]
 
@@ -54,7 +61,6 @@ COST_A, COST_C = 3000, 150          # cost correspondence: lines <= COST_A + COS
 SIZE_A, SIZE_K = 64, 32             # size(decoded) <= SIZE_A + |sig| + SIZE_K * |data|
 HARD_CAP = 600000                   # tracing aborts here (an endless loop must not hang the check)
 
-SIG_QUADRATIC = 'work-quadratic-in-signature-nesting'
 SIG_BUDGET = 'work-exceeds-budget'
 SIG_SIZE = 'output-exceeds-budget'
 
@@ -148,7 +154,8 @@ def input_len(c):
 
 def model_line(c):
     if c['kind'] == 'msg':
-        return '(5 2 %s (()))' % common.dump(c['raw'])
+        mf = c.get('fds', [])
+        return '(5 2 %s %s)' % (common.dump(c['raw']), '()' if mf is None else common.dump([[[0, x] for x in mf]]))
     fds = '()' if c['fds'] is None else common.dump([[[0, x] for x in c['fds']]])
     return '(5 1 0 %s %s %d %d %s)' % (common.dump(c['sig']), common.dump(bytes(c['data'])), c['off'], 1 if c['le'] else 0, fds)
 
@@ -166,19 +173,24 @@ def evaluate(ctx, cases, res):
     outs = common.run_model([model_line(c) for c in cases])
     stats = res.extra.setdefault('stats', {'msg': 0, 'un': 0, 'impl_ok': 0, 'impl_err': 0, 'resource_limit': 0, 'aborted': 0,
                                            'model_deep': 0, 'max_lines': 0, 'max_lines_per_byte_x100': 0, 'max_lines_per_tick_x100': 0,
-                                           'max_size_per_byte_x100': 0, 'err_classes': {}})
+                                           'max_size_per_byte_x100': 0, 'above_typical_budget_but_within_proved_bound': 0,
+                                           'max_lines_per_input_byte_within_proved_bound': 0, 'err_classes': {}})
     for c, o in zip(cases, outs):
         k = c['kind']
         stats[k] += 1
+        # trace as far as the model's counters can explain (at least HARD_CAP): an aborted trace is then always unexplained work
+        hard = max(HARD_CAP, COST_A + COST_C * (o[3] + o[4]))
         if k == 'msg':
             raw = bytes(c['raw'])
-            cls, val, lines = traced(lambda: message.parseMessage(raw, []), txdir, HARD_CAP)
+            mfds = c.get('fds', [])
+            mfds = None if mfds is None else list(mfds)
+            cls, val, lines = traced(lambda: message.parseMessage(raw, mfds), txdir, hard)
             obs = (val._messageType, msg_size(val)) if cls == 'ok' else None
             nsig, ndata = 0, len(raw)
         else:
             data = bytes(c['data'])
             fds = None if c['fds'] is None else list(c['fds'])
-            cls, val, lines = traced(lambda: marshal.unmarshal(c['sig'], data, c['off'], c['le'], fds), txdir, HARD_CAP)
+            cls, val, lines = traced(lambda: marshal.unmarshal(c['sig'], data, c['off'], c['le'], fds), txdir, hard)
             obs = (val[0], sum(vsize(x) for x in val[1])) if cls == 'ok' else None
             nsig, ndata = len(c['sig']), len(data)
         if cls == 'err':
@@ -213,10 +225,11 @@ def evaluate(ctx, cases, res):
         budget = LINE_A + LINE_B * n_in
         explained = COST_A + COST_C * ticks
         if lines > budget:
-            if lines <= explained or (cls == 'abort' and explained >= HARD_CAP):
+            if lines <= explained and cls != 'abort':
                 # Above the budget calibrated on valid traffic, but accounted for by the model's counters, which the
                 # theorems bound LINEARLY in the message length (C05_parse_total: calls <= 1042 + 3060*|raw|, scan <=
-                # 1024*(1020 + 2160*|raw|); a header signature has at most 255 characters).  The property asks for work
+                # 1024*(1020 + 2160*|raw|); a header signature has at most 255 characters; for a direct unmarshal call
+                # C05_work_linear: calls <= |sig| + max(|sig|,255)*2|data|, scan <= |sig| + max(|sig|,255)*calls).  The property asks for work
                 # proportional to the length, not for the constant of ordinary traffic: recorded, not a violation
                 # (deeply nested signatures make unmarshal re-split the signature text at every level).
                 stats['above_typical_budget_but_within_proved_bound'] = stats.get('above_typical_budget_but_within_proved_bound', 0) + 1
@@ -225,7 +238,7 @@ def evaluate(ctx, cases, res):
             else:
                 res.violate(c, 'decoding %d input bytes executed %s%d lines (budget %d = %d + %d*len); the model predicts at most %d'
                             % (n_in, '> ' if cls == 'abort' else '', lines, budget, LINE_A, LINE_B, explained), SIG_BUDGET)
-        elif lines > explained:
+        elif lines > explained or cls == 'abort':
             res.disagree(c, 'lines=%d' % lines, 'calls=%d scan=%d -> at most %d lines' % (m_calls, m_scan, explained), 'model_cost')
         # ---- property oracle: size of what was built ---------------------------------------------------
         if cls == 'ok':
@@ -369,6 +382,38 @@ def sig_field_cases(ctx):
         yield msg(hdr + b'\0' * ((-len(hdr)) % 8))
 
 
+def unix_fds_cases(ctx):
+    """the UNIX_FDS header field (code 9) bounds the descriptor list given to the body decoder (D60): oobFDs[:unix_fds].
+    Hostile: non-integer types (the slice raises), negative via signed types, huge, bool, None (an 'h' past the list),
+    repeated, absent; bodies that index inside / outside the list"""
+    rng = ctx.rng
+    vals = [('u', 0), ('u', 1), ('u', 2), ('u', 3), ('u', 2**32 - 1), ('u', 2**31), ('i', -1), ('i', -2), ('i', -3), ('i', -2**31),
+            ('i', 2), ('n', -1), ('n', 1), ('x', -1), ('x', 2**62), ('x', -2**63), ('t', 2**64 - 1), ('t', 1), ('y', 1), ('y', 255), ('q', 2),
+            ('b', True), ('b', False), ('o', '/a'), ('o', '/org/freedesktop/DBus'), ('s', 'x'), ('s', ''), ('s', '2'), ('g', 'u'), ('g', ''),
+            ('d', 0), ('d', 0x3ff0000000000000), ('d', 0x4000000000000000), ('v', {'vt': 'u', 'w': 1}), ('v', {'vt': 's', 'w': 'x'}),
+            ('v', {'vt': 'i', 'w': -1}), (['a', 'u'], [1]), (['a', 'u'], []), (['(', ['u']], [1]), (['a', ['{', 'u', 'u']], [[1, 1]]),
+            ('h', 0), ('h', 1), ('h', 9), None]
+    bodies = [(['h', 'h'], [0, 1]), ([['a', 'h']], [[0, 1, 2, 5]]), (['y'], [7]), (['h'], [2**32 - 1]), None]
+    for fv in vals:
+        for bi, bd in enumerate(bodies):
+            for fds in ([], [5, 6, 7], None, [1]):
+                le = rng.random() < 0.7
+                fields = [(5, 'u', 7)]
+                body = b''
+                if bd is not None:
+                    ts, ws = bd
+                    body = g.enc_seq(ts, ws, 0, le)
+                    fields.append((8, 'g', ''.join(mc.show(t) for t in ts)))
+                if fv is not None:
+                    fields.append((9, fv[0], fv[1]))
+                    if rng.random() < 0.15:
+                        fields.append((9, 'u', rng.choice([0, 1, 2])))      # a later UNIX_FDS field wins
+                rng.shuffle(fields)
+                c = msg(g.mk_msg(le, rng.choice([1, 2, 2, 4]), 0, 3, fields, body))
+                c['fds'] = fds
+                yield c
+
+
 def gen_cases(ctx):
     rng = ctx.rng
     kinds = {}
@@ -402,6 +447,8 @@ def gen_cases(ctx):
         yield note('msg-random', msg(b[:rng.randrange(len(b) + 1)] if rng.random() < 0.3 else b))
     for c in sig_field_cases(ctx):
         yield note('msg-sigfield', c)
+    for c in unix_fds_cases(ctx):
+        yield note('msg-unixfds', c)
     for c in gen_hostile_sigs(ctx):
         yield note('un-hostile-sig', c)
     for k, c in gen_typed_mutations(ctx):
